@@ -52,6 +52,7 @@ def call_module_function(modname, fname, args=(), kwargs=None):
     def entry(it):
         env = it.import_module(modname)
         fn = env.vars[fname] if isinstance(env, ModuleEnv) else getattr(env, fname)
+        it.ctx.begin_call()
         return it.call(fn, list(args), dict(kwargs or {}))
     return entry
 
@@ -74,5 +75,6 @@ def exec_text_and_call(text, fname, args=(), kwargs=None, globals_module=None, s
             raise SymRaise(KeyError(fname))
         a = args(it) if callable(args) else args
         k = kwargs(it) if callable(kwargs) else kwargs
+        it.ctx.begin_call()
         return it.call(l[fname], list(a), dict(k or {}))
     return entry
